@@ -516,3 +516,30 @@ brk_on("R19-4", "on-R19-4-tile-part-psot-forgets-header", ["C16"],
 brk_on("R20-2", "on-R20-2-com-payload-guard-too-small", ["C08"],
     [("jpeg2000/decoder.go", "		if len(com.Data) <= comMCTHeaderLen {\n			continue\n		}\n		rows :=", "		if len(com.Data) <= comMagicLen+1 {\n			continue\n		}\n		rows :=")],
     "SLICE-CONST", "mctFromCOM")
+
+# round 7: seeded change C16-1 (SOT / tile-part body helpers; the global-RD path's Psot omits the tile header) is reported
+# once plain body helpers are expanded into their writes; its repaired twin must stay silent
+seed("C16-1", "C16", "BYTES")
+CATALOGUE.append(dict(name="on-seed-C16-1-repaired-psot-argument", kind="benign", props=["C16", "C19"],
+    edits=[("jpeg2000/encoder.go", "writeSOT(buf, tile.idx, len(tileBytes), 0, 1)", "writeSOT(buf, tile.idx, tileHeader.Len()+len(tileBytes), 0, 1)")],
+    rule="", where="", patch="seeded/C16-1/patch.diff"))
+
+# ALLOC-READBUF (C09 memory clause): seeded change C09-4 (tile-part body copied into make([]byte, Psot-consumed)
+# before the bounds check) and its repaired twins
+seed("C09-4", "C09", "ALLOC-READBUF")
+CATALOGUE.append(dict(name="on-seed-C09-4-length-compared-with-input-first", kind="benign", props=["C09", "C08"],
+    edits=[("jpeg2000/codestream/parser.go", "	body := make([]byte, int(psot)-consumed)\n",
+            "	if int(psot)-consumed > len(p.data)-p.offset {\n		return p.readTileData()\n	}\n	body := make([]byte, int(psot)-consumed)\n")],
+    rule="", where="", patch="seeded/C09-4/patch.diff"))
+CATALOGUE.append(dict(name="on-seed-C09-4-length-checked-by-helper", kind="benign", props=["C09"],
+    edits=[("jpeg2000/codestream/parser.go", "	body := make([]byte, int(psot)-consumed)\n",
+            "	if !p.holds(int(psot) - consumed) {\n		return p.readTileData()\n	}\n	body := make([]byte, int(psot)-consumed)\n"),
+           ("jpeg2000/codestream/parser.go", "func componentIndexSize(", "func (p *Parser) holds(n int) bool { return n >= 0 && n <= len(p.data)-p.offset }\n\nfunc componentIndexSize(")],
+    rule="", where="", patch="seeded/C09-4/patch.diff"))
+# OWNER-SINK and buffered coders: the repaired twin of seeded change C10-9 must stay silent; a raw store into
+# the staging buffer must be reported
+refactor("RX-3", ["C16", "C10", "C18"])
+brk_on("RX-3", "on-RX-3-raw-store-into-staging-buffer", ["C16"],
+    [("jpeg/standard/huffman_encoder.go", "	e.bits = (e.bits << uint(n)) | (bits & ((1 << uint(n)) - 1))\n",
+      "	if n == 8 && e.nBits == 0 && e.n < huffmanEncoderChunk {\n		e.out[e.n] = byte(bits)\n		e.n++\n		return nil\n	}\n	e.bits = (e.bits << uint(n)) | (bits & ((1 << uint(n)) - 1))\n")],
+    "OWNER-SINK", "HuffmanEncoder")
